@@ -89,8 +89,8 @@ func DefaultStringType() *stringType {
 
 func NewStringType(rng *IntegerType, s string) px.Type {
 	if s == `` {
-		if rng == nil || *rng == *IntegerTypePositive || *rng == *integerTypeDefault {
-			// String[Integer]: a length is never negative, the unbounded range accepts every string too
+		if rng == nil || rng.min <= 0 && rng.max == math.MaxInt64 {
+			// a length is never negative: every range without an upper bound that starts at or below zero accepts every string
 			return DefaultStringType()
 		}
 		return &scStringType{size: rng}
